@@ -30,6 +30,7 @@ const invalidCond = "package-operator.run/Invalid"
 var templates = map[string]string{
 	"ok":            "apiVersion: verif.example/v1\nkind: Widget\nmetadata:\n  name: out\nspec:\n  x: \"{{ .config.v }}\"\n  second: \"{{ get .config \"w\" | default \"none\" }}\"\n{{ if eq (toString .config.v) \"2\" }}  extra: present\n  list: [a, b]\n{{ else }}  list: [a]\n{{ end }}",
 	"okns":          "apiVersion: verif.example/v1\nkind: Widget\nmetadata:\n  name: out\n  namespace: ns\nspec:\n  x: \"{{ .config.v }}\"\n  second: \"{{ get .config \"w\" | default \"none\" }}\"\n{{ if eq (toString .config.v) \"2\" }}  extra: present\n  list: [a, b]\n{{ else }}  list: [a]\n{{ end }}",
+	"needsw":        "apiVersion: verif.example/v1\nkind: Widget\nmetadata:\n  name: out\nspec:\n  x: \"{{ .config.v }}\"\n  second: \"{{ if not (hasKey .config \"w\") }}{{ fail \"the optional value is needed\" }}{{ end }}{{ .config.w }}\"\n  list: [a]\n",
 	"missingkey":    "apiVersion: verif.example/v1\nkind: Widget\nmetadata:\n  name: out\nspec:\n  x: \"{{ .config.nope.deeper }}\"\n",
 	"noparse":       "apiVersion: verif.example/v1\nkind: Widget\nmetadata:\n  name: out\nspec:\n  x: \"{{ .config.v \n",
 	"foreignns":     "apiVersion: verif.example/v1\nkind: Widget\nmetadata:\n  name: out\n  namespace: other\nspec:\n  x: \"{{ .config.v }}\"\n",
@@ -205,6 +206,14 @@ func check(sc scenario) func(before *world.World, ev world.Event, pass *world.Pa
 			}
 			return out
 		}
+		if tmpl == "needsw" && s2 == nil {
+			// the template cannot render without the optional source - "missing optional sources
+			// are retried" still holds: the pass has to ask for a retry
+			if pass.Result.RequeueAfter <= 0 && pass.Err == nil {
+				bad("optional-source-not-retried", "the optional source is missing (and the template cannot render without it) but the pass neither fails nor asks to be retried")
+			}
+			return out
+		}
 		if tmpl == "missingkey" || (sc.Cluster && (tmpl == "foreignns" || tmpl == "clusterkind" || tmpl == "clusterkindns")) {
 			return out // rendering error / cluster template variants: statement silent, not judged
 		}
@@ -237,6 +246,9 @@ func check(sc scenario) func(before *world.World, ev world.Event, pass *world.Pa
 			if fmt.Sprint(wantX) == "2" {
 				want["extra"] = "present"
 				want["list"] = []any{"a", "b"}
+			}
+			if tmpl == "needsw" {
+				want = map[string]any{"x": fmt.Sprint(wantX), "second": fmt.Sprint(wantY), "list": []any{"a"}}
 			}
 			got, _ := world.Nested(o.Content, "spec")
 			if !reflect.DeepEqual(got, any(want)) {
@@ -421,6 +433,7 @@ func scenarios(quick bool) []scenario {
 		{Cluster: true, Templates: []string{"okns", "noparse"}, Sources: "normal", Edits: 3},
 		{Templates: []string{"ok"}, Sources: "normal", Edits: 2, Faults: 1, Conflicts: 1},
 		{Templates: []string{"ok", "noparse"}, Sources: "normal", Edits: 3, Restarts: 1, OptionalFirst: true},
+		{Templates: []string{"needsw", "ok"}, Sources: "normal", Edits: 3},
 		{Cluster: true, Templates: []string{"okns"}, Sources: "normal", Edits: 2, OptionalFirst: true},
 		{Templates: []string{"ok", "noparse"}, Sources: "normal", Edits: 3, LongLived: true},
 	}
@@ -436,7 +449,7 @@ func scenarios(quick bool) []scenario {
 
 func run(o checks.Opts) *report.Report {
 	rep := report.New("C18", "bfs")
-	rep.Rule = "explicit-state BFS: ObjectTemplate t (and a ClusterObjectTemplate variant) with a required source s1 (.data.x) and an optional source s2 (.data.y) listed in either order, template text from {renders both values, missing key, does not parse, foreign namespace, cluster-scoped kind}; events = create / edit / delete each source, switch template, reconcile, delete the template, operator restart (dynamic cache lost), garbage collector, (one system) all passes in one long-lived operator process with the template deleted and re-created under the same name with another text, every fault kind at every API call of a template pass and a foreign write landing before each of its writes (budgeted), with an edit budget; source values 1 / 2 / empty, the template has a conditional key and a list that shrinks; source variants: in namespace, in another namespace, cluster-scoped kind; monitor on every ObjectTemplate pass incl. the real EnqueueWatchingObjects handler over the cache's owner sets"
+	rep.Rule = "explicit-state BFS: ObjectTemplate t (and a ClusterObjectTemplate variant) with a required source s1 (.data.x) and an optional source s2 (.data.y) listed in either order, template text from {renders both values, cannot render without the optional value, missing key, does not parse, foreign namespace, cluster-scoped kind}; events = create / edit / delete each source, switch template, reconcile, delete the template, operator restart (dynamic cache lost), garbage collector, (one system) all passes in one long-lived operator process with the template deleted and re-created under the same name with another text, every fault kind at every API call of a template pass and a foreign write landing before each of its writes (budgeted), with an edit budget; source values 1 / 2 / empty, the template has a conditional key and a list that shrinks; source variants: in namespace, in another namespace, cluster-scoped kind; monitor on every ObjectTemplate pass incl. the real EnqueueWatchingObjects handler over the cache's owner sets"
 	scs := scenarios(o.Quick())
 	rep.Bounds["systems"] = len(scs)
 	for i, sc := range scs {
